@@ -93,6 +93,11 @@ pub struct ACtl {
     /// percent chance that a poll point pends at all
     pub pend_pct: u32,
     pub injected: AtomicU64,
+    /// fail the k-th call (trait call or handle poll that reaches the inner object); 0 = off
+    pub fail_at: AtomicU64,
+    pub sticky: AtomicBool,
+    pub calls: AtomicU64,
+    pub faults_fired: AtomicU64,
 }
 
 impl ACtl {
@@ -107,6 +112,20 @@ impl ACtl {
             n
         } else {
             0
+        }
+    }
+    /// Some(error) if this call must fail (I/O-class error, never a "not found")
+    pub fn fault(&self) -> Option<std::io::Error> {
+        let k = self.fail_at.load(Ordering::Relaxed);
+        if k == 0 || !self.on.load(Ordering::Relaxed) {
+            return None;
+        }
+        let n = self.calls.fetch_add(1, Ordering::Relaxed) + 1;
+        if n == k || (n > k && self.sticky.load(Ordering::Relaxed)) {
+            self.faults_fired.fetch_add(1, Ordering::Relaxed);
+            Some(std::io::Error::new(std::io::ErrorKind::Other, "injected fault"))
+        } else {
+            None
         }
     }
     pub fn quiet<T>(&self, f: impl FnOnce() -> T) -> T {
@@ -197,6 +216,9 @@ impl Read for PendRead {
         if pend_gate(&mut this.left, &this.ctl, cx) {
             return Poll::Pending;
         }
+        if let Some(e) = this.ctl.fault() {
+            return Poll::Ready(Err(e));
+        }
         Pin::new(&mut this.inner).poll_read(cx, buf)
     }
 }
@@ -223,6 +245,9 @@ impl Write for PendWrite {
         if pend_gate(&mut this.left, &this.ctl, cx) {
             return Poll::Pending;
         }
+        if let Some(e) = this.ctl.fault() {
+            return Poll::Ready(Err(e));
+        }
         Pin::new(&mut this.inner).poll_write(cx, buf)
     }
     fn poll_flush(self: Pin<&mut Self>, cx: &mut Context<'_>) -> Poll<std::io::Result<()>> {
@@ -245,6 +270,9 @@ impl Write for PendWrite {
 impl AsyncFileSystem for PendFS {
     async fn read_dir(&self, path: &str) -> VfsResult<Box<dyn Unpin + Stream<Item = String> + Send>> {
         YieldN(self.ctl.draw()).await;
+        if let Some(e) = self.ctl.fault() {
+            return Err(vfs::VfsError::from(e));
+        }
         let mut v: Vec<String> = self.inner.read_dir(path).await?.collect().await;
         // same order seam as the sync SimFS: sorted, then permuted by (seed, node, path)
         v.sort();
@@ -256,61 +284,103 @@ impl AsyncFileSystem for PendFS {
     }
     async fn create_dir(&self, path: &str) -> VfsResult<()> {
         YieldN(self.ctl.draw()).await;
+        if let Some(e) = self.ctl.fault() {
+            return Err(vfs::VfsError::from(e));
+        }
         self.inner.create_dir(path).await
     }
     async fn open_file(&self, path: &str) -> VfsResult<Box<dyn SeekAndRead + Send + Unpin>> {
         YieldN(self.ctl.draw()).await;
+        if let Some(e) = self.ctl.fault() {
+            return Err(vfs::VfsError::from(e));
+        }
         let h = self.inner.open_file(path).await?;
         Ok(Box::new(PendRead { inner: h, ctl: self.ctl.clone(), left: None }))
     }
     async fn create_file(&self, path: &str) -> VfsResult<Box<dyn Write + Send + Unpin>> {
         YieldN(self.ctl.draw()).await;
+        if let Some(e) = self.ctl.fault() {
+            return Err(vfs::VfsError::from(e));
+        }
         let h = self.inner.create_file(path).await?;
         Ok(Box::new(PendWrite { inner: h, ctl: self.ctl.clone(), left: None }))
     }
     async fn append_file(&self, path: &str) -> VfsResult<Box<dyn Write + Send + Unpin>> {
         YieldN(self.ctl.draw()).await;
+        if let Some(e) = self.ctl.fault() {
+            return Err(vfs::VfsError::from(e));
+        }
         let h = self.inner.append_file(path).await?;
         Ok(Box::new(PendWrite { inner: h, ctl: self.ctl.clone(), left: None }))
     }
     async fn metadata(&self, path: &str) -> VfsResult<VfsMetadata> {
         YieldN(self.ctl.draw()).await;
+        if let Some(e) = self.ctl.fault() {
+            return Err(vfs::VfsError::from(e));
+        }
         self.inner.metadata(path).await
     }
     async fn set_creation_time(&self, path: &str, time: SystemTime) -> VfsResult<()> {
         YieldN(self.ctl.draw()).await;
+        if let Some(e) = self.ctl.fault() {
+            return Err(vfs::VfsError::from(e));
+        }
         self.inner.set_creation_time(path, time).await
     }
     async fn set_modification_time(&self, path: &str, time: SystemTime) -> VfsResult<()> {
         YieldN(self.ctl.draw()).await;
+        if let Some(e) = self.ctl.fault() {
+            return Err(vfs::VfsError::from(e));
+        }
         self.inner.set_modification_time(path, time).await
     }
     async fn set_access_time(&self, path: &str, time: SystemTime) -> VfsResult<()> {
         YieldN(self.ctl.draw()).await;
+        if let Some(e) = self.ctl.fault() {
+            return Err(vfs::VfsError::from(e));
+        }
         self.inner.set_access_time(path, time).await
     }
     async fn exists(&self, path: &str) -> VfsResult<bool> {
         YieldN(self.ctl.draw()).await;
+        if let Some(e) = self.ctl.fault() {
+            return Err(vfs::VfsError::from(e));
+        }
         self.inner.exists(path).await
     }
     async fn remove_file(&self, path: &str) -> VfsResult<()> {
         YieldN(self.ctl.draw()).await;
+        if let Some(e) = self.ctl.fault() {
+            return Err(vfs::VfsError::from(e));
+        }
         self.inner.remove_file(path).await
     }
     async fn remove_dir(&self, path: &str) -> VfsResult<()> {
         YieldN(self.ctl.draw()).await;
+        if let Some(e) = self.ctl.fault() {
+            return Err(vfs::VfsError::from(e));
+        }
         self.inner.remove_dir(path).await
     }
     async fn copy_file(&self, src: &str, dest: &str) -> VfsResult<()> {
         YieldN(self.ctl.draw()).await;
+        if let Some(e) = self.ctl.fault() {
+            return Err(vfs::VfsError::from(e));
+        }
         self.inner.copy_file(src, dest).await
     }
     async fn move_file(&self, src: &str, dest: &str) -> VfsResult<()> {
         YieldN(self.ctl.draw()).await;
+        if let Some(e) = self.ctl.fault() {
+            return Err(vfs::VfsError::from(e));
+        }
         self.inner.move_file(src, dest).await
     }
     async fn move_dir(&self, src: &str, dest: &str) -> VfsResult<()> {
         YieldN(self.ctl.draw()).await;
+        if let Some(e) = self.ctl.fault() {
+            return Err(vfs::VfsError::from(e));
+        }
         self.inner.move_dir(src, dest).await
     }
 }
@@ -404,7 +474,7 @@ fn abuild_rec<'a>(spec: &'a Spec, ctl: &'a Arc<ACtl>, next_id: &'a mut u16, base
 }
 
 pub fn abuild(spec: &Spec, order_seed: u64, permute: bool, pend_seed: u64, pend_pct: u32) -> Result<ABuilt, String> {
-    let ctl = Arc::new(ACtl { order_seed, permute, on: AtomicBool::new(false), rng: Mutex::new(Rng::new(pend_seed)), pend_pct, injected: AtomicU64::new(0) });
+    let ctl = Arc::new(ACtl { order_seed, permute, on: AtomicBool::new(false), rng: Mutex::new(Rng::new(pend_seed)), pend_pct, injected: AtomicU64::new(0), fail_at: AtomicU64::new(0), sticky: AtomicBool::new(false), calls: AtomicU64::new(0), faults_fired: AtomicU64::new(0) });
     let mut next_id = 0u16;
     let mut base = None;
     let mut st = PollStats::default();
